@@ -126,6 +126,13 @@ pub fn block(kind: &str, rng: &mut Rng, u: usize) -> (String, String) {
                 body.push_str(&format!("sink += {name}_{i};\n"));
             }
             body.push_str(&format!("sink += {name}((int)1) + {name}(1.0f);\n"));
+            // locals spelled like the names the overloads will be given
+            if rng.chance(1, 2) {
+                decl.push_str(&format!(
+                    "int {name}_locals(int p) {{ int {name}_0 = p; int {name}_1 = {name}_0 + 1; return {name}_1 + {name}((int)p); }}\n"
+                ));
+                body.push_str(&format!("sink += {name}_locals(1);\n"));
+            }
         }
         "locals" => {
             // locals that clash with globals, with each other across functions and with words
@@ -266,6 +273,10 @@ pub fn block(kind: &str, rng: &mut Rng, u: usize) -> (String, String) {
                     decl.push_str(&format!("{ty} cb{u}_{i}_{v};\n"));
                     if j == 0 {
                         body.push_str(&format!("sink += cb{u}_{i}_{v};\n"));
+                        // ... and inside an index expression
+                        body.push_str(&format!(
+                            "{{ int cb_arr{u}_{i}[4]; cb_arr{u}_{i}[0] = 1; cb_arr{u}_{i}[cb{u}_{i}_{v} & 3] = 2; sink += cb_arr{u}_{i}[(cb{u}_{i}_{v} + 1) & 3]; }}\n"
+                        ));
                     }
                 }
                 decl.push_str("}\n");
@@ -631,13 +642,31 @@ pub fn valid_kinds() -> &'static (Vec<&'static str>, Vec<String>) {
                 ok.push(*k);
                 continue;
             }
+            // the validator gets 20 s of wall clock (a valid block compiles in milliseconds); one
+            // that hangs is killed and its kind kept, like one that dies
             let out = exe.as_ref().and_then(|exe| {
-                std::process::Command::new(exe)
+                let mut child = std::process::Command::new(exe)
                     .args(["w2-validate", k])
                     .stdin(std::process::Stdio::null())
+                    .stdout(std::process::Stdio::piped())
                     .stderr(std::process::Stdio::null())
-                    .output()
-                    .ok()
+                    .spawn()
+                    .ok()?;
+                let deadline = std::time::Instant::now() + std::time::Duration::from_secs(20);
+                loop {
+                    match child.try_wait() {
+                        Ok(Some(_)) => break,
+                        Ok(None) if std::time::Instant::now() < deadline => {
+                            std::thread::sleep(std::time::Duration::from_millis(5));
+                        }
+                        _ => {
+                            let _ = child.kill();
+                            let _ = child.wait();
+                            return None;
+                        }
+                    }
+                }
+                child.wait_with_output().ok()
             });
             match out {
                 Some(o) if o.status.success() => {
@@ -650,7 +679,7 @@ pub fn valid_kinds() -> &'static (Vec<&'static str>, Vec<String>) {
                 other => {
                     notes.push(format!(
                         "W2 block '{k}': the validating process did not finish ({}); kept in the workload",
-                        other.map(|o| o.status.to_string()).unwrap_or_else(|| "not started".into())
+                        other.map(|o| o.status.to_string()).unwrap_or_else(|| "killed after 20 s".into())
                     ));
                     ok.push(*k);
                 }
@@ -694,6 +723,15 @@ pub const TAILS: &[&str] = &[
             "static int step;\nstatic int uses_step = step;\n",
             "void fn_then_global() {}\nstatic int fn_then_global;\nstatic int uses_ftg = fn_then_global;\n",
             "[[rssl::bindless]] cbuffer BindlessCB { float bcb_a; }\n",
+            // sizeof of untyped literals and of vectors made from them
+            "static const uint sz_a = sizeof(1.0);\n",
+            "static const uint sz_b = sizeof(7.xxx);\n",
+            "static const uint sz_c = sizeof((2).xxxx) + sizeof(1.5.xx);\n",
+            // names qualified by more than one scope
+            "namespace QA { namespace QB { static const int qx = 1; int qg() { return 2; } enum QE { QE0, QE1 }; } namespace QC { static const int qz = QB::qx + QA::QB::qx + ::QA::QB::qx; } }\nstatic const int q_use = QA::QB::qx + QA::QB::qg() + (int)QA::QB::QE::QE1 + QA::QC::qz;\n",
+            "namespace QA2 { namespace QB2 { static const int qx = 1; } }\nstatic const int q_bad = QA2::QMissing::qx;\n",
+            // an entry point that is only declared
+            "void proto_cs();\nPipeline ProtoP { ComputeShader = proto_cs; }\n",
             // a struct template with several instantiations (both exporters answer
             // UnsupportedStructTemplate today: valid input whose export is unfinished)
             "template<typename T>\nstruct TplPair { T first; T second; T sum() { return first + second; } };\nvoid tpl_use() { TplPair<float> pf; TplPair<int> pi; TplPair<uint> pu; TplPair<float2> pf2; pf.first = 1; pi.first = 2; pu.first = 3; pf2.first = float2(4, 5); }\n",
